@@ -1,6 +1,7 @@
 #ifndef TULZ_THREAD_H
 #define TULZ_THREAD_H
 
+#include <atomic>
 #include <thread>
 
 #include "Runnable.h"
@@ -42,7 +43,7 @@ public:
 
 private:
     std::thread m_thread;
-    bool m_isFinished = false;
+    std::atomic<bool> m_isFinished = false;
 };
 }
 
